@@ -4,6 +4,8 @@ Mode C: after do_fit() on each fitted problem, every sequence (with repetition) 
 after every query the fit must be where it was, minimizer and graph parameters must agree, and a repeated query must
 give the same answer.
 """
+import collections
+import contextlib
 import io
 import itertools
 import os
@@ -15,22 +17,72 @@ import numpy as np
 
 from kmc import problems
 from kmc.core import JobResult
+from kmc.fitworld import FitWorld, close_scaled
 
 PROPERTY = "C08"
 RULE = (
     "executions = (fitted problem, backend, dynamic-error algorithm, sequence of post-fit queries with repetition); after each "
     "query: parameter values within 0.03 sigma, cost within 1e-3, parameter errors within 10 %, did_fit unchanged, "
     "minimizer.parameter_values within 0.01 sigma of fit.parameter_values, repeated query = same answer; non-trivial = the "
-    "sequence contains a query that re-minimises internally (asymmetric errors, profile, contour)"
+    "sequence contains a query that re-minimises internally (asymmetric errors, profile, contour); additionally after each query "
+    "the model values the fit reports must be the model function at the data for fit.parameter_values (the parameters used to "
+    "evaluate the model are the fit's), and a model curve returned by an evaluation method must be the model function at the "
+    "requested points"
 )
 ASSUMPTIONS = [
     "tolerances calibrated on the unchanged tree (worst iminuit shift 2.9e-3 sigma, cost 1.2e-5, sigma 2.4 %)",
     "scipy: sequences of length 1 in the quick tier, contours only in the thorough tier (4.9 s each)",
+    "quick tier: the read-type queries added later (goodness of fit, result dictionary, evaluation methods at user points) and all queries "
+    "on the problems with other fit types / cost functions are enumerated alone, repeated, and in front of one query per re-evaluation "
+    "mechanism (PAIR_Q); the thorough tier enumerates all their pairs",
 ]
-QUERIES = ["cov", "cor", "asym", "profile0", "profile1", "profile_bounds", "profile_cl", "profile_refused_low", "profile_refused_high", "contour", "band", "report", "result_dict_asym", "plot", "to_file", "to_file_asym", "hessian"]
+QUERIES_BASE = ["cov", "cor", "asym", "profile0", "profile1", "profile_bounds", "profile_cl", "profile_refused_low", "profile_refused_high", "contour", "band", "report", "result_dict_asym", "plot", "to_file", "to_file_asym", "hessian"]
+# pure reads: goodness of fit / result dictionary (every cost function has its own goodness_of_fit), and the public evaluation
+# methods with arguments (model curve at user points, with explicit parameters, derivatives by parameters)
+QUERIES_READ = ["gof", "result_dict", "eval_model", "eval_model_pars", "eval_deriv"]
+QUERIES = QUERIES_BASE + QUERIES_READ
+# one query per mechanism that evaluates the cost function again (MINOS-like scan, profile, profile with confidence level, contour, HESSE, asymmetric errors through the result dictionary)
+PAIR_Q = ["asym", "profile0", "profile_cl", "contour", "hessian", "result_dict_asym"]
+EVAL_CALLS = {
+    "eval_model": {"xy": "call:eval_model_function:grid", "unbinned": "call:eval_model_function:grid", "hist": "call:eval_model_function_density:grid"},
+    "eval_model_pars": {"xy": "call:eval_model_function:grid+pars", "unbinned": "call:eval_model_function:grid+pars", "hist": "call:eval_model_function_density:grid+pars"},
+    "eval_deriv": {"xy": "call:eval_model_function_derivative_by_parameters:grid"},
+}
 REMINIMISING = {"asym", "profile0", "profile1", "profile_bounds", "profile_cl", "profile_refused_low", "profile_refused_high", "contour", "result_dict_asym", "to_file_asym"}
 PROBS_QUICK = ["lin-y", "exp-xy", "exp-fixed", "exp-lim", "exp-relm", "idx3-cov"]
 PROBS_ALL = list(problems.PROBLEMS)
+# fit types and cost functions other than XYFit / chi2: name -> (fit type, cost identifier, model, ops before the fit).
+# ':nodet' = a cost function OBJECT built with add_determinant_cost=False (no string identifier gives that)
+PROBLEMS_X = collections.OrderedDict(
+    [
+        ("unb-nll", ("unbinned", "nll", "normal", [])),
+        ("hist-ga-nodet", ("hist", "gauss_approximation:nodet", "normal", [])),
+        ("idx-ga-nodet", ("indexed", "gauss_approximation:nodet", "idx2", [("add", "y-abs-rho", "e0")])),
+        ("hist-nll", ("hist", "nll", "normal", [])),
+        ("hist-ga", ("hist", "gauss_approximation", "normal", [("add", "y-abs", "e0")])),
+        ("xy-ga-nodet", ("xy", "gauss_approximation:nodet", "linoff", [("add", "y-abs", "e0"), ("add", "x-abs", "e1")])),
+        ("idx-ga", ("indexed", "gauss_approximation", "idx2", [("add", "y-abs-rho", "e0")])),
+        ("hist-chi2-nodet", ("hist", "chi2:nodet", "normal", [("add", "y-abs", "e0")])),
+    ]
+)
+PROBS_X_QUICK = ["unb-nll", "hist-ga-nodet", "idx-ga-nodet"]
+
+
+def make_problem(prob, v=0, minimizer="iminuit", dea="nonlinear", fit=True):
+    if prob in problems.PROBLEMS:
+        return problems.make(prob, v=v, minimizer=minimizer, dea=dea, fit=fit)
+    ftype, cost, model, ops = PROBLEMS_X[prob]
+    if ftype == "unbinned":
+        w = FitWorld(ftype, cost, model=model, v=v, minimizer=minimizer)
+    else:
+        w = FitWorld(ftype, cost, model=model, v=v, minimizer=minimizer, dea=dea, n=8 if ftype in ("xy", "indexed") else 5)
+    with warnings.catch_warnings():
+        warnings.simplefilter("ignore")
+        for op in ops:
+            w.apply(tuple(op))
+        if fit:
+            w.apply(("fit",))
+    return w
 
 
 def do_query(w, q, tmpdir):
@@ -96,6 +148,19 @@ def do_query(w, q, tmpdir):
             if d["asymmetric_parameter_errors"] is None:
                 return None
             return np.asarray([d["cost"]] + list(d["parameter_values"].values()) + list(np.ravel(d["asymmetric_parameter_errors"][free[0]])), dtype=float)
+        if q == "gof":
+            g = f.goodness_of_fit
+            return None if g is None else np.asarray([g, f.ndf], dtype=float)
+        if q == "result_dict":
+            d = f.get_result_dict()
+            return np.asarray([d["cost"], np.nan if d["goodness_of_fit"] is None else d["goodness_of_fit"], d["ndf"]] + list(d["parameter_values"].values()), dtype=float)
+        if q in EVAL_CALLS:
+            name = EVAL_CALLS[q][w.ftype]
+            ans = np.asarray(getattr(f, name.split(":")[1])(**_call_kwargs(w, name)), dtype=float)
+            exp = w.ref_call(name, pv=collections.OrderedDict(zip(w.par_names, (float(x) for x in f.parameter_values))))
+            if exp is not None and not close_scaled(ans, np.asarray(exp, dtype=float), rtol=1e-9):
+                raise WrongCurve(_l(np.asarray(exp, dtype=float)), _l(ans))
+            return ans
         if q == "plot":
             import matplotlib.pyplot as plt
 
@@ -108,6 +173,38 @@ def do_query(w, q, tmpdir):
             f.to_file(path)
             return None
     raise KeyError(q)
+
+
+class WrongCurve(Exception):
+    def __init__(self, expected, actual):
+        Exception.__init__(self, "wrong curve")
+        self.expected, self.actual = expected, actual
+
+
+def _call_kwargs(w, name):
+    spec = name.split(":")[2]
+    kw = {}
+    if "grid" in spec:
+        kw["x"] = w.eval_grid()
+    if "pars" in spec:
+        kw["model_parameters"] = [float(x) for x in w.point("P2").values()]
+    return kw
+
+
+def model_vs_parameters(w):
+    """the model values the fit reports against the model function evaluated (by the reference) at the data for fit.parameter_values"""
+    f = w.fit
+    with warnings.catch_warnings():
+        warnings.simplefilter("ignore")
+        try:
+            act = np.asarray(f.y_model if w.ftype == "xy" else f.model, dtype=float)
+        except Exception as e:  # noqa: BLE001
+            return [("model_vs_parameters", "model values", "%s: %s" % (type(e).__name__, str(e)[:120]), "exception:" + type(e).__name__)]
+        pv = collections.OrderedDict(zip(w.par_names, (float(x) for x in f.parameter_values)))
+        exp = np.asarray(w.ref_model(pv), dtype=float)
+    if act.shape == exp.shape and close_scaled(act, exp, rtol=1e-7):
+        return []
+    return [("model_vs_parameters", exp.tolist(), act.tolist(), "model-not-at-fit-parameters")]
 
 
 def snapshot(w):
@@ -148,13 +245,19 @@ def same_answer(a, b):
     if a.shape != b.shape:
         return False
     scale = max(np.nanmax(np.abs(a)) if a.size else 0.0, np.nanmax(np.abs(b)) if b.size else 0.0, 1e-300)
-    return bool(np.all(np.abs(a - b) <= 5e-2 * scale + 2e-3))
+    both_nan = np.isnan(a) & np.isnan(b)  # "not defined" twice is the same answer
+    return bool(np.all((np.abs(a - b) <= 5e-2 * scale + 2e-3) | both_nan))
 
 
 def run_sequence(prob, backend, dea, v, seq, res=None):
+    with contextlib.redirect_stdout(io.StringIO()):  # the minimizer base class prints a warning when a scan steps to an infinite cost value
+        return _run_sequence(prob, backend, dea, v, seq, res)
+
+
+def _run_sequence(prob, backend, dea, v, seq, res=None):
     tmpdir = tempfile.mkdtemp(prefix="kmc_c08_")
     try:
-        w = problems.make(prob, v=v, minimizer=backend, dea=dea)
+        w = make_problem(prob, v=v, minimizer=backend, dea=dea)
         ref = snapshot(w)
         sig = ref["errors"].copy()
         viol = []
@@ -162,6 +265,9 @@ def run_sequence(prob, backend, dea, v, seq, res=None):
         for i, q in enumerate(seq):
             try:
                 ans = do_query(w, q, tmpdir)
+            except WrongCurve as e:
+                viol.append(("answer:" + q, e.expected, e.actual, "wrong-curve"))
+                break
             except Exception as e:  # noqa: BLE001
                 viol.append(("query:" + q, "no exception", "%s: %s" % (type(e).__name__, str(e)[:120]), "exception:" + type(e).__name__))
                 break
@@ -169,7 +275,7 @@ def run_sequence(prob, backend, dea, v, seq, res=None):
                 res.transitions += 1
                 res.evaluations += 1
             now = snapshot(w)
-            bad = compare_state(ref, now, sig)
+            bad = compare_state(ref, now, sig) + model_vs_parameters(w)
             for o, e, a, m in bad:
                 viol.append(("%s after %s" % (o, q), e, a, m))
             if q in answers and not same_answer(answers[q], ans):
@@ -187,13 +293,14 @@ def _l(a):
 
 
 def queries_for(prob, backend, tier):
-    w = problems.make(prob, fit=False)
+    w = make_problem(prob, fit=False)
     free = [p for p in w.par_names if p not in w.fixed]
     qs = list(QUERIES)
     if len(free) < 2:
         qs = [q for q in qs if q not in ("contour", "profile1")]
     if w.ftype != "xy":
         qs.remove("band")
+    qs = [q for q in qs if q not in EVAL_CALLS or w.ftype in EVAL_CALLS[q]]
     if backend == "scipy" and tier == "quick":
         qs = [q for q in qs if q != "contour"]
     return qs
@@ -202,7 +309,7 @@ def queries_for(prob, backend, tier):
 def jobs(tier, seed):
     v = seed % 3
     specs = []
-    probs = PROBS_QUICK if tier == "quick" else PROBS_ALL
+    probs = (PROBS_QUICK + PROBS_X_QUICK) if tier == "quick" else (PROBS_ALL + list(PROBLEMS_X))
     for vv in ([v] if tier == "quick" else [0, 1, 2]):
         for prob in probs:
             for backend in ("iminuit", "scipy"):
@@ -219,18 +326,49 @@ def jobs(tier, seed):
 
 def bound(tier, seed):
     if tier == "quick":
-        return "6 fitted problems (linear, x+y, fixed, limited, model-relative, indexed) x {nonlinear, iterative where dynamic}; iminuit: all query sequences with repetition of length <= 2 over 12 queries; scipy: length 1 without contours; valuation %d" % (seed % 3)
-    return "14 fitted problems; iminuit: all query sequences of length <= 3 (one valuation) and <= 2 (the two others) over 15 queries; scipy: length <= 2 incl. contours (one valuation), length 1 (the others)"
+        return (
+            "6 fitted xy/indexed chi2 problems (linear, x+y, fixed, limited, model-relative, indexed) x {nonlinear, iterative where dynamic}; iminuit: all "
+            "query sequences with repetition of length <= 2 over the 17 base queries, plus each of the 5 read queries (goodness of fit, result dictionary, "
+            "model curve / curve with explicit parameters / parameter derivatives at user points) alone, twice, and in front of one query per "
+            "re-evaluation mechanism (6); 3 fitted problems of other kinds (unbinned likelihood, histogram and indexed fits with a Gaussian-approximation "
+            "cost OBJECT without determinant term): every query alone, twice, and in front of the 6 re-evaluating ones; scipy: length 1 without contours; "
+            "valuation %d" % (seed % 3)
+        )
+    return (
+        "14 fitted chi2 problems; iminuit: all query sequences of length <= 3 (one valuation) and <= 2 (the two others) over the 17 base queries, all pairs "
+        "with the 5 read queries; scipy: length <= 2 incl. contours (one valuation), length 1 (the others); 8 problems of other fit types / cost "
+        "functions (unbinned, histogram nll / Gaussian approximation with and without determinant term / chi2 object without determinant term, indexed and xy "
+        "Gaussian approximation): all sequences of length <= 2 over all queries"
+    )
+
+
+def sequences_for(prob, backend, tier, L, first):
+    """the query sequences of one job (all start with `first`)"""
+    qs = queries_for(prob, backend, tier)
+    base = [q for q in qs if q not in QUERIES_READ]
+    full_product = prob in problems.PROBLEMS and first in base
+    seqs = []
+    if full_product:
+        for n in range(1, L + 1):
+            for tail in itertools.product(base, repeat=n - 1):
+                seqs.append((first,) + tail)
+        if tier != "quick" and L >= 2:
+            seqs += [(first, q) for q in qs if q in QUERIES_READ]
+        return seqs
+    seqs.append((first,))
+    if L >= 2:
+        if tier == "quick":
+            seqs.append((first, first))
+            seqs += [(first, q) for q in PAIR_Q if q in qs and q != first]
+        else:
+            seqs += [(first, q) for q in qs]
+    return seqs
 
 
 def run_job(spec):
     prob, backend, dea, v, L, first, tier = spec
     res = JobResult()
-    qs = queries_for(prob, backend, tier)
-    seqs = []
-    for n in range(1, L + 1):
-        for tail in itertools.product(qs, repeat=n - 1):
-            seqs.append((first,) + tail)
+    seqs = sequences_for(prob, backend, tier, L, first)
     for seq in seqs:
         viol = run_sequence(prob, backend, dea, v, seq, res)
         res.executions += 1
@@ -242,6 +380,9 @@ def run_job(spec):
         res.outcomes[(prob, backend, dea, "ok" if not viol else "MOVED")] += 1
         for q in seq:
             res.facts["query:" + q] += 1
+        res.facts["problem:" + prob] += 1
+        if len(seq) > 1 and seq[0] in QUERIES_READ + ["report", "plot", "to_file"] and seq[1] in REMINIMISING:
+            res.facts["read-before-reminimising:" + prob] += 1
         for o, e, a, m in viol:
             hist = [dict(prob=prob, backend=backend, dea=dea, v=v)] + list(seq)
             res.violation("%s/%s/%s|%s" % (prob, backend, dea, ";".join(seq)), hist, o, e, a, m)
@@ -262,3 +403,6 @@ def triage_key(v):
 def vacuity_guards(tot, tier):
     for q in QUERIES:
         yield "query %s exercised" % q, tot.facts.get("query:" + q, 0) > 0
+    for p in PROBS_X_QUICK if tier == "quick" else list(PROBLEMS_X):
+        yield "problem %s explored" % p, tot.facts.get("problem:" + p, 0) > 0
+        yield "a read was placed before a re-minimising query on %s" % p, tot.facts.get("read-before-reminimising:" + p, 0) > 0
